@@ -216,10 +216,10 @@ theorem run_insert (g : State) (sw : SPc) (cl : List CPc) (res : List (List Out)
 
 /-- Layer B through one eviction: `evRemove → evSub → evStore → evSpace → fill`, up to the next `loopDecide`. -/
 theorem run_evict (g : State) (sw : SPc) (cl : List CPc) (res : List (List Out)) (o : Oracle) (m : Nat)
-    (c : PutCmd) (incEst : Nat) (sample : List SKey) (k : SKey) (wk : WKey)
-    (hk : g.adm.kw.get? k.id = some wk) :
+    (c : PutCmd) (incEst : Nat) (sample : List SKey) (k : SKey) (wk : WKey) (t : TinyLFU) (size : Nat)
+    (hk : g.adm.kw.get? k.id = some wk) (ht : g.lfu = t) (hs : g.cfg.sampleSize = size) :
     workerRun (m + 5) ⟨g, .evRemove c incEst sample k, sw, cl, res, none, none⟩ o =
-      match fillSample g.lfu (g.adm.kw.del k.id) (fillNeed g.cfg.sampleSize (g.adm.kw.del k.id) sample) sample o with
+      match fillSample t (g.adm.kw.del k.id) (fillNeed size (g.adm.kw.del k.id) sample) sample o with
       | .error e => .error e
       | .ok (s'', o') =>
         contRun m (loopDecide
@@ -227,6 +227,7 @@ theorem run_evict (g : State) (sw : SPc) (cl : List CPc) (res : List (List Out))
               (k.id, wk.key, wk.weight),
             .fill c incEst sample (g.adm.max - (g.adm.used - wk.weight)), sw, cl, res, none, none⟩
           c incEst s'' (g.adm.max - (g.adm.used - wk.weight)) o') := by
+  subst ht hs
   simp only [workerRun, workerAct, hk, contRun, WPc.atHead, wuFree]
   simp
   cases fillSample g.lfu (g.adm.kw.del k.id) (fillNeed g.cfg.sampleSize (g.adm.kw.del k.id) sample) sample o with
@@ -262,8 +263,126 @@ theorem loop_sim (c : PutCmd) (incEst : Nat) (s0 : State) (sw : SPc) (cl : List 
       simp only [Bool.false_eq_true, if_false]
       exact run_insert _ sw cl res o n c (by omega)
     · simp only [hsp, if_false]
-      trace_state
-      sorry
+      rcases hp : o.pops with _ | ⟨_ | id, pops⟩
+      · simp [contRun]
+      · by_cases he : (!sample.isEmpty) = true
+        · simp [he, contRun]
+        · obtain ⟨m, rfl⟩ : ∃ m, n = m + 1 := ⟨n - 1, by omega⟩
+          simp only [he, if_false, contRun, WPc.atHead, workerRun, workerAct, wuFree]
+          simp [hsp, rejectCmd, finishCmd, putEnd]
+      · simp only []
+        cases hf : sample.find? (fun x => x.id == id) with
+        | none => simp [contRun]
+        | some k =>
+          simp only []
+          by_cases hmax : (!k.isMaxOf sample) = true
+          · simp [hmax, contRun]
+          · simp only [hmax, Bool.false_eq_true, if_false]
+            by_cases hest : incEst < k.est
+            · simp [hest, contRun, rejectCmd, finishCmd, putEnd, WPc.atHead]
+            · simp only [hest, if_false]
+              obtain ⟨hmem, hid⟩ := find?_id_some hf
+              subst hid
+              obtain ⟨wk, hwk⟩ := Option.isSome_iff_exists.mp (hok k hmem)
+              have hdel := Adm.delete_charged a k.id wk hwk
+              have hok' := SampleOK.delete_filter hok k.id
+              rw [hdel] at hok' ⊢
+              simp only [] at hok' ⊢
+              obtain ⟨m, rfl⟩ : ∃ m, n = m + 5 := ⟨n - 5, by omega⟩
+              simp only [contRun, WPc.atHead, Bool.false_eq_true, if_false]
+              rw [run_evict (g := { ev.reverse.foldl applyEvict s0 with adm := a })
+                (t := s0.lfu) (size := s0.cfg.sampleSize) (hk := hwk)
+                (ht := foldl_applyEvict_lfu _ _) (hs := by simp only [foldl_applyEvict_cfg])]
+              simp only []
+              cases hfs : fillSample s0.lfu (a.kw.del k.id)
+                  (fillNeed s0.cfg.sampleSize (a.kw.del k.id) (sample.filter (fun x => x.id != k.id)))
+                  (sample.filter (fun x => x.id != k.id)) { o with pops := pops } with
+              | error e => exact ⟨_, rfl⟩
+              | ok r =>
+                obtain ⟨s'', o2⟩ := r
+                simp only []
+                have hok'' := fillSample_sampleOK hok' hfs
+                have hlen' := AMap.length_del_lt a.kw k.id (by simp [hwk])
+                have IH := ih { a with kw := a.kw.del k.id, used := a.used - wk.weight } s'' o2
+                  ((k.id, wk.key, wk.weight) :: ev) (k :: pp)
+                  (.fill c incEst (sample.filter (fun x => x.id != k.id)) (a.max - (a.used - wk.weight))) m
+                  hok'' (by simp only []; omega) (by omega)
+                have hX : ({ ((k.id, wk.key, wk.weight) :: ev).reverse.foldl applyEvict s0 with
+                              adm := { a with kw := a.kw.del k.id, used := a.used - wk.weight } } : State) =
+                    applyEvict { ev.reverse.foldl applyEvict s0 with
+                              adm := { a with kw := a.kw.del k.id, used := a.used - wk.weight } }
+                      (k.id, wk.key, wk.weight) := by
+                  rw [applyEvict_adm, List.reverse_cons, List.foldl_append]
+                  rfl
+                rw [hX] at IH
+                exact IH
+
+/-- what Layer A's `finish` makes of the result of `workerPut`, as a Layer B state -/
+def finishB (sw : SPc) (cl : List CPc) (res : List (List Out)) (h : Option Nat) : Exec → BState
+  | .done s1 st _ _ _ => ⟨{ s1 with acks := setAck s1.acks h st }, .recv, sw, cl, res, none, none⟩
+  | .panicked s1 _ => ⟨{ s1 with worker := .dead, queue := [] }, .dead, sw, cl, res, none, none⟩
+
+/-- Layer A: the part of `workerPut` after `maybeAdd` has answered `r` (verbatim). -/
+def putTailA (s : State) (id : Nat) (w : Int) (k v : Nat) (ttl : Option Nat) (r : AdmResult) : Exec :=
+  let s1 := r.evicted.foldl applyEvict { s with adm := r.adm }
+  if r.status = .accepted then
+    let s2 := { s1 with stats := { s1.stats with weightAdded := (s1.stats.weightAdded + w.toNat) % u64Mod } }
+    match ttl with
+    | none =>
+      let s3 := { s2 with store := s2.store.set k { value := v, id := id, expiry := none, soft := false },
+                          stats := { s2.stats with keysAdded := s2.stats.keysAdded + 1 } }
+      .done s3 .accepted r.incEst r.popped r.evicted
+    | some t =>
+      match addTime s.now t with
+      | none => .panicked s2 .timeOverflow
+      | some e =>
+        let s3 := { s2 with store := s2.store.set k { value := v, id := id, expiry := some e, soft := false },
+                            stats := { s2.stats with keysAdded := s2.stats.keysAdded + 1 } }
+        .done (ttlPut s3 id e) .accepted r.incEst r.popped r.evicted
+  else
+    let s2 := { s1 with stats := { s1.stats with keysRejected := s1.stats.keysRejected + 1 } }
+    .done s2 r.status r.incEst r.popped r.evicted
+
+theorem workerPut_eq (s : State) (id hash : Nat) (w : Int) (k v : Nat) (ttl : Option Nat) (o : Oracle) :
+    workerPut s id hash w k v ttl o =
+      if s.store.contains k then .ok (.done s (.rejected .keyAlreadyExists) none [] [], o)
+      else match maybeAdd s.lfu s.cfg.sampleSize s.adm id k hash w o with
+        | .error m => .error m
+        | .ok r => .ok (putTailA s id w k v ttl r, r.oracle) := by
+  unfold workerPut putTailA
+  by_cases hc : s.store.contains k = true
+  · simp only [hc, if_true]
+  · simp only [hc, Bool.false_eq_true, if_false]
+    cases maybeAdd s.lfu s.cfg.sampleSize s.adm id k hash w o with
+    | error m => rfl
+    | ok r =>
+      simp only []
+      split
+      · split
+        · rfl
+        · split <;> rfl
+      · rfl
+
+/-- The Layer A tail and the Layer B tail (`putEnd`) are the same function of the state with the evictions applied. -/
+theorem putTailA_eq (s : State) (sw : SPc) (cl : List CPc) (res : List (List Out)) (c : PutCmd) (r : AdmResult)
+    (a : Adm) (hr : r.adm = if r.status = .accepted then a.add c.id c.k c.hash c.w else a) :
+    finishB sw cl res c.h (putTailA s c.id c.w c.k c.v c.ttl r) =
+      ⟨(putEnd { r.evicted.foldl applyEvict s with adm := a } c r.status).1,
+       (putEnd { r.evicted.foldl applyEvict s with adm := a } c r.status).2, sw, cl, res, none, none⟩ := by
+  unfold putTailA putEnd
+  rw [foldl_applyEvict_adm, hr]
+  have hnow : (r.evicted.foldl applyEvict s).now = s.now := by rw [foldl_applyEvict_frame]
+  generalize r.evicted.foldl applyEvict s = X at hnow ⊢
+  by_cases hst : r.status = .accepted
+  · simp only [hst, if_true]
+    cases c.ttl with
+    | none => simp [finishB, Adm.add]
+    | some t =>
+      simp only [hnow]
+      cases addTime s.now t with
+      | none => simp [finishB, Adm.add]
+      | some e => simp [finishB, Adm.add, ttlPut]
+  · simp [hst, finishB]
 
 end B
 end Cached
